@@ -40,10 +40,16 @@ def normEntity (e : EntityKey) : EntityKey :=
   | .primary false => { e with typ := .none }
   | _ => e
 
-/-- canonical enum declaration: effective prefix, short option names, explicit UNSPECIFIED -/
+/-- one description per compiled value: the zero value has one only when it was declared explicitly -/
+def EnumDecl.valueDescs (d : EnumDecl) : List String :=
+  if d.isExplicit then d.optDescs else "" :: d.optDescs
+
+/-- canonical enum declaration: effective prefix, short option names, explicit UNSPECIFIED, one
+description per option -/
 def normDecl (d : EnumDecl) : EnumDecl :=
   { name := d.name, declPrefix := some d.pfx, defaultPrefix := d.pfx,
-    options := d.values.map fun v => trimPrefix d.pfx v.1 }
+    options := d.values.map fun v => trimPrefix d.pfx v.1,
+    description := d.description, descs := d.valueDescs }
 
 def normEnumName (d : EnumDecl) (n : String) : String := trimPrefix d.pfx (addPrefix d.pfx n)
 
